@@ -463,8 +463,14 @@ static unsigned long lh_char_hash(const void *k)
 #define RANDOM_SEED_TYPE int
 #endif
 	static volatile RANDOM_SEED_TYPE random_seed = -1;
+#if defined(__ATOMIC_RELAXED)
+/* random_seed is published with a compare-and-swap: read it atomically too */
+#define LH_RANDOM_SEED_LOAD() __atomic_load_n(&random_seed, __ATOMIC_RELAXED)
+#else
+#define LH_RANDOM_SEED_LOAD() (random_seed)
+#endif
 
-	if (random_seed == -1)
+	if (LH_RANDOM_SEED_LOAD() == -1)
 	{
 		RANDOM_SEED_TYPE seed;
 		/* we can't use -1 as it is the uninitialized sentinel */
@@ -488,7 +494,7 @@ static unsigned long lh_char_hash(const void *k)
 #endif
 	}
 
-	return hashlittle((const char *)k, strlen((const char *)k), (uint32_t)random_seed);
+	return hashlittle((const char *)k, strlen((const char *)k), (uint32_t)LH_RANDOM_SEED_LOAD());
 }
 
 int lh_char_equal(const void *k1, const void *k2)
